@@ -23,9 +23,9 @@ import (
 type Mode int32
 
 const (
-	Off   Mode = iota // shims pass straight through
-	BatonMode         // engine B
-	FreeMode          // engine F: bubble + fake clock, goroutines free-running
+	Off       Mode = iota // shims pass straight through
+	BatonMode             // engine B
+	FreeMode              // engine F: bubble + fake clock, goroutines free-running
 )
 
 var mode atomic.Int32
@@ -115,28 +115,28 @@ type World struct {
 	// for a long stretch, which the coin-flip policies reach only rarely.
 	libBirths   int64
 	lastLibSite string
-	pct      bool
-	prioSeed uint64
-	changeAt []int64
-	demoted  map[*Task]int64
-	demoteN  int64
-	logHash    uint64
-	LogLines   []string // optional detailed log (replay diagnosis)
-	KeepLog    bool
-	violations []Violation
-	stopReq    bool
-	mainDone   bool
-	anon       int
-	HorizonHit bool
-	StepCapHit bool
-	Probes     map[string]int
-	Faults     map[string]int
-	schedN     int64
-	preempts   int64
-	multiReady int64
-	pcCache    map[uintptr]string
-	seamPC     map[uintptr]bool
-	timers     []*time.Timer
+	pct         bool
+	prioSeed    uint64
+	changeAt    []int64
+	demoted     map[*Task]int64
+	demoteN     int64
+	logHash     uint64
+	LogLines    []string // optional detailed log (replay diagnosis)
+	KeepLog     bool
+	violations  []Violation
+	stopReq     bool
+	mainDone    bool
+	anon        int
+	HorizonHit  bool
+	StepCapHit  bool
+	Probes      map[string]int
+	Faults      map[string]int
+	schedN      int64
+	preempts    int64
+	multiReady  int64
+	pcCache     map[uintptr]string
+	seamPC      map[uintptr]bool
+	timers      []*time.Timer
 	// CondNewest: buggify — Signal wakes the newest waiter.
 	CondNewest bool
 	// Starve: task id prefix only picked when nothing else can run.
@@ -155,14 +155,14 @@ var (
 
 func NewWorld(tape *Tape, horizon time.Duration) *World {
 	w := &World{
-		tape:       tape,
-		Horizon:    horizon,
-		MaxSteps:   400000,
-		Probes:     map[string]int{},
-		Faults:     map[string]int{},
-		pcCache:    map[uintptr]string{},
-		seamPC:     map[uintptr]bool{},
-		logHash:    1469598103934665603,
+		tape:     tape,
+		Horizon:  horizon,
+		MaxSteps: 400000,
+		Probes:   map[string]int{},
+		Faults:   map[string]int{},
+		pcCache:  map[uintptr]string{},
+		seamPC:   map[uintptr]bool{},
+		logHash:  1469598103934665603,
 	}
 	return w
 }
@@ -798,13 +798,13 @@ func (w *World) Stats() Stats {
 // TaskInfo is a diagnostic snapshot of one task.
 type TaskInfo struct {
 	ID, Site, State, ParkSite, API string
-	Harness                       bool
-	BlockedSince                  int64
-	Held                          []string
-	BlockedOnOwner                string
-	BlockedOnOwnerSite            string
-	OwnerAPIDone                  bool
-	OwnerDead                     bool
+	Harness                        bool
+	BlockedSince                   int64
+	Held                           []string
+	BlockedOnOwner                 string
+	BlockedOnOwnerSite             string
+	OwnerAPIDone                   bool
+	OwnerDead                      bool
 }
 
 // Tasks returns a snapshot of all live tasks. Only meaningful at a settle or
@@ -972,7 +972,6 @@ func MutexUnlock(ms *MutexState, mu *sync.Mutex) {
 		t.park(sRunnable) // yield after releasing
 	}
 }
-
 
 // ------------------------------------------------------------------ cond
 
